@@ -99,7 +99,7 @@ def run(tier="quick", seed=0):
     rng = np.random.default_rng(seed)
     jobs = []
     for cls in stages.ALL:
-        budget = (3000 if thorough else 200) // (1 if cls.cost < 3 else (3 if cls.cost < 10 else (10 if thorough else 8)))
+        budget = (12000 if thorough else 200) // (1 if cls.cost < 3 else (3 if cls.cost < 10 else (10 if thorough else 8)))
         sel = [hists[i] for i in rng.choice(len(hists), size=min(budget, len(hists)), replace=False)]
         longs = [8191, 8192, 8193, 20000] if cls.name in CHEAP_LONG else []
         if cls.name == "EASRadio.__call__" and not thorough:
